@@ -10,5 +10,5 @@ CONSTANTS
   MaxSteps = 4
 VIEW View
 CONSTRAINT Bound
-INVARIANTS Struct CacheOK Refines IssuedOnce PanicAgrees CacheSelects
+INVARIANTS Struct Flags CacheOK Refines IssuedOnce PanicAgrees CacheSelects
 CHECK_DEADLOCK FALSE
